@@ -21,6 +21,8 @@
 //!   rbf <id>                  TxPool::check_rbf                  -> ok <conflicts> | rbf-unconfirmed | rbf-struct | rbf-dep | rbf-fee
 //!   submit <id> <st> <ts>     the locked section of submit_entry: check_rbf | conflict test, process_rbf's
 //!                             removals, add_entry, limit_size(Some(id)) -> ok R=.. E=.. L=.. | full R=.. E=.. L=.. | rbf-* | dead | add-<res>
+//!   minfees                   TxPool::min_replace_fee of every pooled entry (what get_transaction reports)
+//!                             -> ok <id>=<fee>;.. | rbf-disabled
 //!   dump                      -> every piece of bookkeeping, canonically sorted
 //! Every state-changing op is followed by a `dump`.
 use crate::common::*;
@@ -131,7 +133,14 @@ struct Sim {
     mid_fixed: bool,
     /// the F3 pattern occurred (even if repaired: the repair cannot enforce the ancestor limit on the children)
     f3_seen: bool,
-    reported: bool,
+    /// entries whose descendants_* may be stale because of an F3 event (the inserted parent and its
+    /// ancestors at that moment); entries whose ancestors_* may be stale (the inserted parent's descendants,
+    /// when the parent has pooled ancestors of its own).  Staleness never spreads: every later update adds or
+    /// subtracts one transaction's own weight on sets computed from the (always exact) links.
+    f3_desc_excuse: BTreeSet<u64>,
+    f3_anc_excuse: BTreeSet<u64>,
+    f3_limit_excuse: BTreeSet<u64>,
+    reported: BTreeSet<String>,
     dead: bool,
     // statistics of the case
     max_pool: usize,
@@ -231,7 +240,10 @@ impl Sim {
             f3_fixed: false,
             mid_fixed: false,
             f3_seen: false,
-            reported: false,
+            f3_desc_excuse: BTreeSet::new(),
+            f3_anc_excuse: BTreeSet::new(),
+            f3_limit_excuse: BTreeSet::new(),
+            reported: BTreeSet::new(),
             dead: false,
             max_pool: 0,
             kinds: BTreeSet::new(),
@@ -419,10 +431,19 @@ impl Sim {
         up.intersection(&down).next().is_some()
     }
 
+    /// States the generator never builds because no validated entry point can produce them and PoolMap's
+    /// results on them depend on insertion / hash order: a cyclic link graph (`would_cycle`), and a
+    /// transaction pooled although one of its cell deps is already consumed by a pooled transaction (the
+    /// pool resolves such a dep as dead; at PoolMap level the two would stay unlinked, while the opposite
+    /// insertion order links them, so `remove_by_detached_proposal`'s unstable re-insertion order would show).
+    fn unreachable_add(&self, v: &View, id: u64) -> bool {
+        self.would_cycle(v, id) || self.txs[&id].deps.iter().any(|d| v.inputs.contains_key(d))
+    }
+
     fn fail(&mut self, out: &mut Out, class: &str, detail: String) {
-        if !self.reported {
+        // once per class and case (a known-finding class must not hide a different failure of the same case)
+        if self.reported.insert(class.to_string()) {
             out.oracle_fail(class, &detail);
-            self.reported = true;
         }
     }
 
@@ -526,16 +547,28 @@ impl Sim {
                     Taint::Mid => "aggregates-stale-after-remove-entry-with-ancestors-and-descendants".to_string(),
                 }
             };
+            // fine-grained excuse of the known finding F3 (parent added after its children): only the entries
+            // that the code as written leaves stale at such an insertion are excused, every other entry must
+            // still be exact (e.g. the descendants of the inserted parent must all have gained its weight)
+            let f3 = "descendants-aggregate-parent-added-after-children";
             if wd != *d {
-                let c = tainted("descendants-aggregate-mismatch", self.taint);
+                let c = if self.taint == Taint::None && self.f3_desc_excuse.contains(id) { f3.to_string() } else { tainted("descendants-aggregate-mismatch", self.taint) };
                 self.fail(out, &c, format!("after {after}: tx {id} descendants_(count,size,cycles,fee)={:?} recomputed={:?}", d, wd));
             }
             if wa != *a {
-                let c = tainted("ancestors-aggregate-mismatch", self.taint);
+                let c = if self.taint == Taint::None && self.f3_anc_excuse.contains(id) { f3.to_string() } else { tainted("ancestors-aggregate-mismatch", self.taint) };
                 self.fail(out, &c, format!("after {after}: tx {id} ancestors_(count,size,cycles,fee)={:?} recomputed={:?}", a, wa));
             }
             if wa[0] > self.cfg.max_anc || a[0] > self.cfg.max_anc {
-                let c = if self.taint == Taint::None && self.f3_seen { "ancestors-limit-exceeded-parent-added-after-children".to_string() } else { tainted("ancestors-limit-exceeded", self.taint) };
+                let c = if self.taint != Taint::None {
+                    tainted("ancestors-limit-exceeded", self.taint)
+                } else if self.f3_seen && self.f3_fixed {
+                    "ancestors-limit-exceeded-parent-added-after-children".to_string()
+                } else if self.f3_limit_excuse.contains(id) {
+                    f3.to_string()
+                } else {
+                    "ancestors-limit-exceeded".to_string()
+                };
                 self.fail(out, &c, format!("after {after}: tx {id} ancestors_count={} recomputed={} max={}", a[0], wa[0], self.cfg.max_anc));
             }
         }
@@ -571,14 +604,52 @@ impl Sim {
             }
         }
     }
-    /// parent added after its children (F3): a transaction that was not pooled before has children now
+    /// parent added after its children (F3): a transaction that was not pooled before has children now.
+    /// What the code as written leaves stale at that moment (known finding): the new parent's own
+    /// descendants_* (= itself), the descendants_* of its ancestors (they gain the parent only, not its
+    /// descendants), the ancestors_* of its descendants (they gain the parent only, not the parent's
+    /// ancestors — nothing is missing when it has none), and those descendants may now exceed the limit.
     fn taint_add(&mut self, before: &View, after: &View) {
         for (id, (_, cs)) in &after.links {
             if !before.entries.contains_key(id) && !cs.is_empty() {
                 self.f3_seen = true;
-                self.set_taint(Taint::F3);
+                self.kinds.insert("parent-after-children");
+                if self.f3_fixed {
+                    continue;
+                }
+                let anc = Self::closure(after, *id, true);
+                let desc = Self::closure(after, *id, false);
+                self.f3_desc_excuse.insert(*id);
+                self.f3_desc_excuse.extend(anc.iter().copied());
+                if !anc.is_empty() {
+                    self.f3_anc_excuse.extend(desc.iter().copied());
+                }
+                self.f3_limit_excuse.extend(desc.iter().copied());
             }
         }
+    }
+
+    /// What a replacement by `d` evicts according to the dumped tables alone: the pooled spenders of its
+    /// inputs and everything reachable from them along the child links, each id once; the fee it needs
+    /// (sum of those fees + min_rbf_rate * size / 1000) and what a sum over distinct FEE VALUES would give.
+    fn rbf_need(&self, v: &View, d: &TxDecl) -> Option<(BTreeSet<u64>, u64, u64)> {
+        let mut set: BTreeSet<u64> = BTreeSet::new();
+        for i in &d.inputs {
+            if let Some(c) = v.inputs.get(i) {
+                set.insert(*c);
+            }
+        }
+        if set.is_empty() {
+            return None;
+        }
+        for c in set.clone() {
+            set.extend(Self::closure(v, c, false));
+        }
+        let inc = self.cfg.min_rbf_rate * d.size / 1000;
+        let need: u64 = set.iter().map(|x| self.txs[x].fee).sum::<u64>() + inc;
+        let distinct_fees: BTreeSet<u64> = set.iter().map(|x| self.txs[x].fee).collect();
+        let under: u64 = distinct_fees.iter().sum::<u64>() + inc;
+        Some((set, need, under))
     }
 
     fn drain_rejected(&mut self) -> Vec<u64> {
@@ -615,7 +686,7 @@ impl Sim {
         if self.dead {
             return;
         }
-        let before = if matches!(t[0], "tx" | "dump" | "rbf") { View::default() } else { self.view() };
+        let before = if matches!(t[0], "tx" | "dump") { View::default() } else { self.view() };
         let mut changed = true;
         match t[0] {
             "tx" => {
@@ -810,6 +881,12 @@ impl Sim {
                         }
                     }
                 }
+                // the re-insertion order follows the STORED ancestors_count: if an earlier F3 event left some of
+                // them stale the order can put a child before its parent (new F3 events that cannot be observed
+                // one by one from outside): fall back to the coarse excuse
+                if !s.is_empty() && (!self.f3_desc_excuse.is_empty() || !self.f3_anc_excuse.is_empty()) {
+                    self.set_taint(Taint::F3);
+                }
                 let shorts: Vec<ProposalShortId> = ids.iter().map(|i| self.short(*i)).collect();
                 self.pool.verif_remove_by_detached_proposal(shorts.iter());
                 if ambiguous {
@@ -839,7 +916,65 @@ impl Sim {
                 };
                 out.op(line, &ans);
                 out.count("rbf");
+                if !ans.starts_with("ok") {
+                    out.count(&format!("rbf-answer-{ans}"));
+                }
                 changed = false;
+                // the fee rule on the harness's own tables: whatever check_rbf admits must pay the fees of every
+                // DISTINCT transaction it evicts (conflicts + their pooled descendants, by id) plus the increment
+                let d = self.txs[&id].clone();
+                if let Some((replaced, need, under)) = self.rbf_need(&before, &d) {
+                    if ans.starts_with("ok") {
+                        out.count("rbf-admits");
+                        if d.fee == need {
+                            out.count("rbf-admits-at-exact-minimum");
+                        }
+                        if d.fee < need {
+                            self.fail(out, "rbf-admitted-below-required-fee", format!("{line}: check_rbf admits fee {} < {} = sum of the fees of {:?} + {} * {} / 1000", d.fee, need, replaced, self.cfg.min_rbf_rate, d.size));
+                        }
+                    } else if ans == "rbf-fee" {
+                        out.count("rbf-fee-rejects");
+                        if d.fee + 1 == need {
+                            out.count("rbf-rejects-one-shannon-short");
+                        }
+                        if d.fee >= under && under < need {
+                            out.count("rbf-rejects-between-undercount-and-minimum");
+                        }
+                    }
+                }
+            }
+            "minfees" => {
+                // TxPool::min_replace_fee of every pooled entry (what get_transaction reports)
+                changed = false;
+                if !self.pool.enable_rbf() {
+                    out.op(line, "rbf-disabled");
+                } else {
+                    let d: PoolDump = self.pool.verif_pool_map().verif_dump();
+                    let mut got: BTreeMap<u64, Option<u64>> = BTreeMap::new();
+                    for e in &d.entries {
+                        got.insert(self.idof(&e.id), self.pool.min_replace_fee(&e.entry).map(|c| c.as_u64()));
+                    }
+                    let parts: Vec<String> = got.iter().map(|(id, f)| match f {
+                        Some(f) => format!("{id}={f}"),
+                        None => format!("{id}=none"),
+                    }).collect();
+                    out.op(line, &format!("ok {}", if parts.is_empty() { "-".to_string() } else { parts.join(";") }));
+                    out.count("minfees");
+                    for (id, f) in &got {
+                        let mut set = Self::closure(&before, *id, false);
+                        set.insert(*id);
+                        let want: u64 = set.iter().map(|x| self.txs[x].fee).sum::<u64>() + self.cfg.min_rbf_rate * self.txs[id].size / 1000;
+                        match f {
+                            Some(f) if *f < want => self.fail(out, "min-replace-fee-below-replaced-fees-plus-increment", format!("{line}: tx {id} min_replace_fee {} < {} = fees of {:?} + {} * {} / 1000", f, want, set, self.cfg.min_rbf_rate, self.txs[id].size)),
+                            Some(f) if *f > want => self.fail(out, "min-replace-fee-above-replaced-fees-plus-increment", format!("{line}: tx {id} min_replace_fee {} > {} = fees of {:?} + increment", f, want, set)),
+                            Some(_) => {}
+                            None => self.fail(out, "min-replace-fee-missing", format!("{line}: tx {id}")),
+                        }
+                        if set.len() > 1 {
+                            out.count("minfee-with-descendants");
+                        }
+                    }
+                }
             }
             "submit" => {
                 let id: u64 = t[1].parse().unwrap();
@@ -876,6 +1011,21 @@ impl Sim {
                         if !replaced.is_empty() {
                             out.count("submit-replaces");
                             self.kinds.insert("rbf-replaces");
+                            if replaced.len() >= 3 {
+                                out.count("submit-replaces-3-or-more");
+                            }
+                            let mut fees: Vec<u64> = replaced.iter().map(|r| self.txs[r].fee).collect();
+                            fees.sort();
+                            if fees.windows(2).any(|w| w[0] == w[1]) {
+                                out.count("submit-replaces-equal-fees");
+                            }
+                            // the evicted set must be exactly conflicts + their pooled descendants (by the links before)
+                            if let Some((want, _, _)) = self.rbf_need(&before, &d) {
+                                let got: BTreeSet<u64> = replaced.iter().copied().collect();
+                                if got != want || got.len() != replaced.len() {
+                                    self.fail(out, "rbf-evicted-set-differs-from-conflicts-and-descendants", format!("{line}: evicted {:?} expected {:?}", replaced, want));
+                                }
+                            }
                             // RBF fee rule, independently: fee >= sum(replaced fees) + min_rbf_rate * size / 1000
                             let need: u64 = replaced.iter().map(|r| self.txs[r].fee).sum::<u64>() + self.cfg.min_rbf_rate * d.size / 1000;
                             if d.fee < need {
@@ -927,6 +1077,9 @@ impl Sim {
         }
         if changed {
             let v = self.view();
+            self.f3_desc_excuse.retain(|i| v.entries.contains_key(i));
+            self.f3_anc_excuse.retain(|i| v.entries.contains_key(i));
+            self.f3_limit_excuse.retain(|i| v.entries.contains_key(i));
             self.max_pool = self.max_pool.max(v.entries.len());
             out.op("dump", &Self::dump_line(&v));
             self.oracle(out, &v, line);
@@ -943,6 +1096,7 @@ struct Gen<'a> {
     /// outputs known so far: (tx, idx)
     outs: Vec<(u64, u64)>,
     clean: bool,
+    flat_fees: bool,
 }
 
 impl<'a> Gen<'a> {
@@ -1000,7 +1154,11 @@ impl<'a> Gen<'a> {
             _ => self.rng.range(10_000, 900_000),
         };
         let rate = *self.rng.pick(&[400u64, 900, 1000, 1000, 1500, 2000, 2500, 4000, 9000]);
-        let fee = size * rate / 1000 + self.rng.below(3);
+        let mut fee = size * rate / 1000 + self.rng.below(3);
+        if self.flat_fees {
+            // a quarter of the cases: fees from a tiny palette, so that replaced sets hold equal fees
+            fee = *self.rng.pick(&[300u64, 300, 500, 1200]);
+        }
         for i in 0..nout {
             self.outs.push((id, i));
         }
@@ -1038,7 +1196,8 @@ fn run_case(out: &mut Out, rng: &mut Rng, world: &World, n_ops: usize, clean: bo
     sim.f2_fixed = f2_fixed.0;
     sim.f3_fixed = f2_fixed.1;
     sim.mid_fixed = f2_fixed.2;
-    let mut g = Gen { rng, next_id: 10, ts: 1000, outs: vec![], clean };
+    let flat_fees = rng.chance(1, 4);
+    let mut g = Gen { rng, next_id: 10, ts: 1000, outs: vec![], clean, flat_fees };
     for r in 0..N_ROOTS {
         for i in 0..ROOT_OUTS {
             g.outs.push((r, i));
@@ -1070,7 +1229,7 @@ fn run_case(out: &mut Out, rng: &mut Rng, world: &World, n_ops: usize, clean: bo
                 let st = g.status();
                 let ts = g.next_ts();
                 let conflict = !sim.pool.verif_pool_map().verif_find_conflict_tx(&sim.txs[&id].view).is_empty();
-                if g.rng.chance(1, 5) || sim.would_cycle(&v, id) {
+                if g.rng.chance(1, 5) || sim.unreachable_add(&v, id) {
                     // declared only: pooled later (possibly after its children) or committed directly
                     declared.push(id);
                 } else if conflict || g.rng.chance(1, 2) {
@@ -1087,7 +1246,7 @@ fn run_case(out: &mut Out, rng: &mut Rng, world: &World, n_ops: usize, clean: bo
                 if let Some(&id) = declared.iter().find(|d| !pooled.contains(d) && !sim.chain.contains(d)) {
                     declared.retain(|d| *d != id);
                     let has_children = v.inputs.keys().any(|(t, _)| *t == id) || v.deps.keys().any(|(t, _)| *t == id);
-                    if (g.clean && has_children) || sim.would_cycle(&v, id) {
+                    if (g.clean && has_children) || sim.unreachable_add(&v, id) {
                         continue;
                     }
                     let conflict = !sim.pool.verif_pool_map().verif_find_conflict_tx(&sim.txs[&id].view).is_empty();
@@ -1106,7 +1265,7 @@ fn run_case(out: &mut Out, rng: &mut Rng, world: &World, n_ops: usize, clean: bo
                 if !cands.is_empty() {
                     let id = *g.rng.pick(&cands);
                     let has_children = v.inputs.keys().any(|(t, _)| *t == id) || v.deps.keys().any(|(t, _)| *t == id);
-                    if (g.clean && has_children) || sim.would_cycle(&v, id) {
+                    if (g.clean && has_children) || sim.unreachable_add(&v, id) {
                         continue;
                     }
                     let st = g.status();
@@ -1167,7 +1326,12 @@ fn run_case(out: &mut Out, rng: &mut Rng, world: &World, n_ops: usize, clean: bo
                 let h = g.rng.range(1, 3);
                 sim.exec(out, &format!("hdr {h}"));
             }
-            85..=89 => sim.exec(out, "limit"),
+            85..=89 => {
+                sim.exec(out, "limit");
+                if g.rng.chance(1, 3) {
+                    sim.exec(out, "minfees");
+                }
+            }
             90..=93 => {
                 let now = g.ts + *g.rng.pick(&[0u64, HOUR_MS / 2, HOUR_MS, HOUR_MS + 1]);
                 let now = now.saturating_sub(g.rng.below(3_000_000));
@@ -1199,6 +1363,657 @@ fn run_case(out: &mut Out, rng: &mut Rng, world: &World, n_ops: usize, clean: bo
     if sim.max_pool >= 30 {
         out.count("case-pool-30-or-more");
     }
+    sim.max_pool
+}
+
+// ------------------------------------------------------------------------------ directed case families
+
+/// small helper for the directed families: declares transactions, keeps ids and timestamps distinct
+struct B {
+    next_id: u64,
+    ts: u64,
+}
+
+impl B {
+    fn new() -> B {
+        B { next_id: 10, ts: 1000 }
+    }
+    fn tx(&mut self, sim: &mut Sim, out: &mut Out, inputs: &[(u64, u64)], deps: &[(u64, u64)], nout: u64, size: u64, cycles: u64, fee: u64) -> u64 {
+        let id = self.next_id;
+        self.next_id += 1;
+        sim.exec(out, &format!("tx {} {} {} - {} {} {} {}", id, pts_str(inputs), pts_str(deps), nout, size, cycles, fee));
+        id
+    }
+    fn next_ts(&mut self, rng: &mut Rng) -> u64 {
+        self.ts += 1 + rng.below(400_000);
+        self.ts
+    }
+    fn add(&mut self, sim: &mut Sim, out: &mut Out, rng: &mut Rng, id: u64, st: &str) {
+        let ts = self.next_ts(rng);
+        sim.exec(out, &format!("add {id} {st} {ts}"));
+    }
+    fn submit(&mut self, sim: &mut Sim, out: &mut Out, rng: &mut Rng, id: u64, st: &str) {
+        let ts = self.next_ts(rng);
+        sim.exec(out, &format!("submit {id} {st} {ts}"));
+    }
+}
+
+fn start_case(out: &mut Out, world: &World, label: &str, cfg: Cfg, fixed: (bool, bool, bool)) -> Sim {
+    out.begin_case(&format!("{label} anc={} size={} rbf={}", cfg.max_anc, cfg.max_size, cfg.min_rbf_rate));
+    out.op(&format!("cfg {} {} 1000 {} {} {}", cfg.max_anc, cfg.max_size, cfg.min_rbf_rate, HOUR_MS, set_str(0..N_ROOTS)), "ok");
+    let mut sim = Sim::new(world, cfg);
+    sim.f2_fixed = fixed.0;
+    sim.f3_fixed = fixed.1;
+    sim.mid_fixed = fixed.2;
+    sim
+}
+
+fn end_case(out: &mut Out, sim: &Sim, family: &str) {
+    if sim.max_pool >= 4 && sim.kinds.len() >= 1 {
+        out.nontrivial(format!("{family} {:?} max_pool={} taint={:?}", sim.kinds, sim.max_pool, sim.taint));
+    }
+    out.count(&format!("case-{family}"));
+    out.count(&format!("case-taint-{:?}", sim.taint));
+}
+
+/// RBF accounting: a replacement set (direct conflicts + their pooled descendants) with equal fees, equal
+/// sizes, descendants shared by two conflicts, diamonds, dep-descendants, bystanders paying the same fees;
+/// replacements paying exactly the minimum, one shannon less, one more, the amount a sum over distinct FEE
+/// VALUES would ask for, and something in between; `min_replace_fee` of every entry; then the submissions.
+fn run_rbf_case(out: &mut Out, rng: &mut Rng, world: &World, fixed: (bool, bool, bool)) -> usize {
+    let min_rbf = *rng.pick(&[1500u64, 1500, 2000, 1001, 1234, 3000]);
+    let max_anc = *rng.pick(&[25u64, 25, 25, 6, 4]);
+    let max_size = if rng.chance(1, 6) { *rng.pick(&[1200u64, 2500, 5000]) } else { 1_000_000 };
+    let mut sim = start_case(out, world, "rbf", Cfg { max_anc, max_size, min_fee_rate: 1000, min_rbf_rate: min_rbf }, fixed);
+    let mut b = B::new();
+    // palettes: mode 0 everything equal, 1 two fee values, 2 fee proportional to a small set of sizes, 3 distinct
+    let fee_mode = rng.below(4);
+    let base_fee = *rng.pick(&[500u64, 1000, 1000, 777, 2000]);
+    let base_size = *rng.pick(&[200u64, 300, 333, 401]);
+    let equal_sizes = rng.chance(1, 2);
+    let mut k = 0u64;
+    let mut attr = |rng: &mut Rng| -> (u64, u64, u64) {
+        k += 1;
+        let size = if equal_sizes { base_size } else { *rng.pick(&[base_size, base_size + 100, 150, 250 + k]) };
+        let fee = match fee_mode {
+            0 => base_fee,
+            1 => *rng.pick(&[base_fee, base_fee, base_fee + 500]),
+            2 => size * *rng.pick(&[1000u64, 2000]) / 1000,
+            _ => base_fee + 37 * k,
+        };
+        let cycles = if rng.chance(1, 2) { 100_000 } else { rng.range(0, 2_000_000) };
+        (size, cycles, fee)
+    };
+    // conflicts: each spends its own confirmed cells
+    let n_conf = 1 + rng.below(3);
+    let mut conflicts: Vec<u64> = vec![];
+    let mut family_outs: Vec<(u64, u64, usize)> = vec![]; // (tx, idx, which conflict's subtree; usize::MAX = shared)
+    for j in 0..n_conf {
+        let (size, cyc, fee) = attr(rng);
+        let mut inputs = vec![(0u64, j)];
+        if rng.chance(1, 3) {
+            inputs.push((1, j));
+        }
+        let nout = 2 + rng.below(2);
+        let id = b.tx(&mut sim, out, &inputs, &[], nout, size, cyc, fee);
+        let st = *rng.pick(&["p", "p", "g", "r"]);
+        b.add(&mut sim, out, rng, id, st);
+        conflicts.push(id);
+        for i in 0..nout {
+            family_outs.push((id, i, j as usize));
+        }
+    }
+    // descendants: spenders of family outputs (chains, diamonds, shared by two conflicts), dep users
+    let n_desc = rng.below(8);
+    for _ in 0..n_desc {
+        if family_outs.is_empty() {
+            break;
+        }
+        let (size, cyc, fee) = attr(rng);
+        let v = sim.view();
+        let spent: BTreeSet<(u64, u64)> = v.inputs.keys().copied().collect();
+        let free: Vec<(u64, u64, usize)> = family_outs.iter().filter(|o| !spent.contains(&(o.0, o.1)) && v.entries.contains_key(&o.0)).copied().collect();
+        if free.is_empty() {
+            break;
+        }
+        let first = *rng.pick(&free);
+        let mut inputs = vec![(first.0, first.1)];
+        let mut owner = first.2;
+        if rng.chance(1, 2) {
+            // a second input: prefer another conflict's subtree (shared descendant) or another branch (diamond)
+            let other: Vec<(u64, u64, usize)> = free.iter().filter(|o| (o.0, o.1) != (first.0, first.1) && (o.2 != first.2 || rng.0 & 2 == 0)).copied().collect();
+            if !other.is_empty() {
+                let o = *rng.pick(&other);
+                if o.0 != first.0 || o.1 != first.1 {
+                    inputs.push((o.0, o.1));
+                    if o.2 != owner {
+                        owner = usize::MAX;
+                    }
+                }
+            }
+        }
+        let mut deps: Vec<(u64, u64)> = vec![];
+        if rng.chance(1, 5) {
+            // a dep-descendant: references (does not spend) an output of a family member that is no input of it
+            let cands: Vec<(u64, u64, usize)> = family_outs.iter().filter(|o| v.entries.contains_key(&o.0) && !inputs.iter().any(|i| i.0 == o.0) && !spent.contains(&(o.0, o.1))).copied().collect();
+            if !cands.is_empty() {
+                let o = *rng.pick(&cands);
+                deps.push((o.0, o.1));
+            }
+        }
+        let nout = 1 + rng.below(2);
+        let id = b.tx(&mut sim, out, &inputs, &deps, nout, size, cyc, fee);
+        if sim.unreachable_add(&v, id) {
+            continue;
+        }
+        let st = *rng.pick(&["p", "p", "g", "r"]);
+        b.add(&mut sim, out, rng, id, st);
+        if sim.view().entries.contains_key(&id) {
+            for i in 0..nout {
+                family_outs.push((id, i, owner));
+            }
+        }
+    }
+    // bystanders paying the same fees (never part of the replaced set)
+    let mut bystander_out: Option<(u64, u64)> = None;
+    for j in 0..rng.below(3) {
+        let (size, cyc, fee) = attr(rng);
+        let inputs = match bystander_out {
+            Some(o) if rng.chance(1, 2) => vec![o],
+            _ => vec![(2u64, j)],
+        };
+        let id = b.tx(&mut sim, out, &inputs, &[], 2, size, cyc, fee);
+        b.add(&mut sim, out, rng, id, "p");
+        bystander_out = Some((id, 1));
+    }
+    sim.exec(out, "minfees");
+    // the replacement candidates
+    let rounds = 1 + rng.below(2);
+    for round in 0..rounds {
+        if sim.dead {
+            break;
+        }
+        let v = sim.view();
+        let live_conflicts: Vec<u64> = conflicts.iter().filter(|c| v.entries.contains_key(c)).copied().collect();
+        if live_conflicts.is_empty() {
+            break;
+        }
+        // which conflicts does it hit: all of them, or a subset
+        let mut hit: Vec<u64> = live_conflicts.clone();
+        if hit.len() > 1 && rng.chance(1, 3) {
+            let drop = rng.below(hit.len() as u64) as usize;
+            hit.remove(drop);
+        }
+        let mut inputs: Vec<(u64, u64)> = hit.iter().map(|c| sim.txs[c].inputs[rng.below(sim.txs[c].inputs.len() as u64) as usize]).collect();
+        if rng.chance(1, 3) {
+            inputs.push((2, 5 + round)); // an additional confirmed cell nobody spends
+        }
+        let size = *rng.pick(&[base_size, 500, 333, 151, 1001]);
+        let probe = TxDecl { id: 0, inputs: inputs.clone(), deps: vec![], hdeps: vec![], nout: 1, size, cycles: 0, fee: 0, view: sim.txs[&0].view.clone() };
+        let (replaced, need, under) = match sim.rbf_need(&v, &probe) {
+            Some(x) => x,
+            None => break,
+        };
+        let mut fees: Vec<u64> = vec![need.saturating_sub(1), need, need + 1, need + 1000];
+        if under < need {
+            fees.push(under);
+            fees.push(under.saturating_sub(1));
+            if under + 1 < need {
+                fees.push((under + need) / 2);
+                out.count("rbf-case-fee-between-undercount-and-minimum");
+            }
+            out.count("rbf-case-equal-fees-in-replaced-set");
+        }
+        if replaced.len() > hit.len() {
+            out.count("rbf-case-with-descendants");
+        }
+        fees.sort();
+        fees.dedup();
+        let mut cand: Vec<(u64, u64)> = vec![];
+        for f in &fees {
+            let id = b.tx(&mut sim, out, &inputs, &[], 1 + rng.below(2), size, rng.range(0, 500_000), *f);
+            sim.exec(out, &format!("rbf {id}"));
+            cand.push((*f, id));
+        }
+        // structural variants, all paying enough
+        if rng.chance(1, 2) {
+            if let Some(o) = bystander_out {
+                if !v.inputs.contains_key(&o) && v.entries.contains_key(&o.0) {
+                    let mut i2 = inputs.clone();
+                    i2.push(o); // a new unconfirmed input
+                    let id = b.tx(&mut sim, out, &i2, &[], 1, size, 0, need + 5000);
+                    sim.exec(out, &format!("rbf {id}"));
+                }
+            }
+        }
+        if rng.chance(1, 2) {
+            let r: Vec<u64> = replaced.iter().copied().collect();
+            let dep_on = *rng.pick(&r);
+            let id = b.tx(&mut sim, out, &inputs, &[(dep_on, 0)], 1, size, 0, need + 5000);
+            sim.exec(out, &format!("rbf {id}"));
+        }
+        if rng.chance(1, 3) {
+            let free: Vec<(u64, u64, usize)> = family_outs.iter().filter(|o| replaced.contains(&o.0) && !hit.contains(&o.0) && !v.inputs.contains_key(&(o.0, o.1))).copied().collect();
+            if !free.is_empty() {
+                let o = *rng.pick(&free);
+                let mut i2 = inputs.clone();
+                i2.push((o.0, o.1)); // spends an output of a descendant it would evict
+                let id = b.tx(&mut sim, out, &i2, &[], 1, size, 0, need + 5000);
+                sim.exec(out, &format!("rbf {id}"));
+            }
+        }
+        // submissions: too low first (nothing may change), then the lowest admitted one
+        let st = *rng.pick(&["p", "p", "g", "r"]);
+        let below: Vec<(u64, u64)> = cand.iter().filter(|(f, _)| *f < need).copied().collect();
+        for (_, id) in below.iter().rev().take(2) {
+            b.submit(&mut sim, out, rng, *id, st);
+        }
+        let at = cand.iter().find(|(f, _)| *f == need).map(|x| x.1);
+        let above = cand.iter().find(|(f, _)| *f == need + 1).map(|x| x.1);
+        let winner = if rng.chance(3, 4) { at } else { above };
+        if let Some(w) = winner {
+            b.submit(&mut sim, out, rng, w, st);
+            sim.exec(out, "minfees");
+            // next round: the winner (maybe with a child paying the same fee) is what gets replaced
+            let v2 = sim.view();
+            if v2.entries.contains_key(&w) {
+                conflicts = vec![w];
+                family_outs.clear();
+                let wn = sim.txs[&w].nout;
+                for i in 0..wn {
+                    family_outs.push((w, i, 0));
+                }
+                if rng.chance(2, 3) {
+                    let f = sim.txs[&w].fee;
+                    let id = b.tx(&mut sim, out, &[(w, 0)], &[], 1, size, 0, if rng.chance(1, 2) { f } else { f / 2 });
+                    b.add(&mut sim, out, rng, id, "p");
+                }
+            }
+        }
+    }
+    if rng.chance(1, 3) {
+        sim.exec(out, "limit");
+    }
+    end_case(out, &sim, "rbf");
+    sim.max_pool
+}
+
+/// the 100-transaction edge of check_rbf (rule 5): stars and double stars whose replacement count — as the
+/// code counts it, a descendant shared by two conflicts twice — is 99, 100, 101 or more
+fn run_rbf_limit_case(out: &mut Out, rng: &mut Rng, world: &World, fixed: (bool, bool, bool), shape: u64) -> usize {
+    let min_rbf = 1500;
+    let mut sim = start_case(out, world, "rbf-limit", Cfg { max_anc: 25, max_size: 1_000_000, min_fee_rate: 1000, min_rbf_rate: min_rbf }, fixed);
+    let mut b = B::new();
+    let fee = 500u64; // every replaced transaction pays the same
+    let size = 200u64;
+    let inputs: Vec<(u64, u64)>;
+    match shape % 4 {
+        0 | 1 => {
+            // one conflict with n children: count = n + 1
+            let n = if shape % 4 == 0 { 99 } else { 100 };
+            let a = b.tx(&mut sim, out, &[(0, 0)], &[], n, size, 0, fee);
+            b.add(&mut sim, out, rng, a, "p");
+            for i in 0..n {
+                let c = b.tx(&mut sim, out, &[(a, i)], &[], 1, size, 1000, fee);
+                b.add(&mut sim, out, rng, c, "p");
+            }
+            inputs = vec![(0, 0)];
+        }
+        _ => {
+            // two conflicts sharing k children: counted 2k + 2, distinct k + 2
+            let k = if shape % 4 == 2 { 49 } else { 50 };
+            let a = b.tx(&mut sim, out, &[(0, 0)], &[], k, size, 0, fee);
+            b.add(&mut sim, out, rng, a, "p");
+            let a2 = b.tx(&mut sim, out, &[(0, 1)], &[], k, size, 0, fee);
+            b.add(&mut sim, out, rng, a2, "p");
+            for i in 0..k {
+                let c = b.tx(&mut sim, out, &[(a, i), (a2, i)], &[], 1, size, 1000, fee);
+                b.add(&mut sim, out, rng, c, "p");
+            }
+            inputs = vec![(0, 0), (0, 1)];
+        }
+    }
+    sim.exec(out, "minfees");
+    let v = sim.view();
+    let tsize = 400u64;
+    let probe = TxDecl { id: 0, inputs: inputs.clone(), deps: vec![], hdeps: vec![], nout: 1, size: tsize, cycles: 0, fee: 0, view: sim.txs[&0].view.clone() };
+    let (_, need, under) = sim.rbf_need(&v, &probe).expect("conflicts");
+    let mut ids = vec![];
+    for f in [under, need - 1, need, need + 1] {
+        let id = b.tx(&mut sim, out, &inputs, &[], 1, tsize, 0, f);
+        sim.exec(out, &format!("rbf {id}"));
+        ids.push(id);
+    }
+    b.submit(&mut sim, out, rng, ids[0], "p");
+    b.submit(&mut sim, out, rng, ids[1], "p");
+    b.submit(&mut sim, out, rng, ids[2], "p");
+    sim.exec(out, "minfees");
+    end_case(out, &sim, "rbf-limit");
+    sim.max_pool
+}
+
+/// limit_size: pools above max_tx_pool_size built with plain add_entry (no eviction on the way), entries of
+/// all three statuses, fee rates that tie so that descendants_count and the timestamp decide the evict order,
+/// packages whose descendant fee rate beats the own fee rate; then limit_size, repeatedly
+fn run_evict_case(out: &mut Out, rng: &mut Rng, world: &World, fixed: (bool, bool, bool)) -> usize {
+    let max_size = *rng.pick(&[500u64, 900, 1300, 2000, 3000]);
+    let max_anc = *rng.pick(&[3u64, 5, 25]);
+    let mut sim = start_case(out, world, "evict", Cfg { max_anc, max_size, min_fee_rate: 1000, min_rbf_rate: *rng.pick(&[1500u64, 1000]) }, fixed);
+    let mut b = B::new();
+    let rates = [1000u64, 1000, 1000, 2000, 2000, 500, 4000];
+    let mut outs: Vec<(u64, u64)> = vec![];
+    for r in 0..N_ROOTS {
+        for i in 0..ROOT_OUTS {
+            outs.push((r, i));
+        }
+    }
+    let rounds = 2 + rng.below(3);
+    for _ in 0..rounds {
+        let n = 3 + rng.below(8);
+        for _ in 0..n {
+            let v = sim.view();
+            let free: Vec<(u64, u64)> = outs.iter().filter(|o| !v.inputs.contains_key(o) && (o.0 < N_ROOTS || v.entries.contains_key(&o.0))).copied().collect();
+            if free.is_empty() {
+                break;
+            }
+            let pooled_first: Vec<(u64, u64)> = free.iter().filter(|o| o.0 >= N_ROOTS).copied().collect();
+            let mut inputs = vec![if !pooled_first.is_empty() && rng.chance(2, 3) { *rng.pick(&pooled_first) } else { *rng.pick(&free) }];
+            if rng.chance(1, 4) {
+                let o = *rng.pick(&free);
+                if !inputs.contains(&o) {
+                    inputs.push(o);
+                }
+            }
+            let size = *rng.pick(&[100u64, 100, 200, 200, 300, 157]);
+            let cycles = if rng.chance(1, 4) { rng.range(1_000_000, 4_000_000) } else { rng.range(0, 100_000) };
+            let fee = size * *rng.pick(&rates) / 1000;
+            let nout = 1 + rng.below(3);
+            let id = b.tx(&mut sim, out, &inputs, &[], nout, size, cycles, fee);
+            let st = *rng.pick(&["p", "p", "g", "r", "r"]);
+            b.add(&mut sim, out, rng, id, st);
+            for i in 0..nout {
+                outs.push((id, i));
+            }
+        }
+        if rng.chance(1, 4) {
+            let v = sim.view();
+            let ids: Vec<u64> = v.entries.keys().copied().collect();
+            if !ids.is_empty() {
+                let id = *rng.pick(&ids);
+                let st = *rng.pick(&["p", "g", "r"]);
+                sim.exec(out, &format!("set {id} {st}"));
+            }
+        }
+        sim.exec(out, "limit");
+        if rng.chance(1, 3) {
+            // a submission into a pool at its limit: the locked section evicts, maybe the new entry itself
+            let v = sim.view();
+            let free: Vec<(u64, u64)> = outs.iter().filter(|o| !v.inputs.contains_key(o) && (o.0 < N_ROOTS || v.entries.contains_key(&o.0))).copied().collect();
+            if !free.is_empty() {
+                let size = *rng.pick(&[100u64, 300, 450]);
+                let fee = size * *rng.pick(&[300u64, 1000, 5000]) / 1000;
+                let o = *rng.pick(&free);
+                let id = b.tx(&mut sim, out, &[o], &[], 1, size, 0, fee);
+                b.submit(&mut sim, out, rng, id, "p");
+                outs.push((id, 0));
+            }
+        }
+    }
+    end_case(out, &sim, "evict");
+    sim.max_pool
+}
+
+/// remove_expired (repaired: with descendants): timestamps on both sides of `now - expiry`, boundary exact
+/// (expiry + ts < now is strict), children younger than expired parents, diamonds, dep children
+fn run_expire_case(out: &mut Out, rng: &mut Rng, world: &World, fixed: (bool, bool, bool)) -> usize {
+    let mut sim = start_case(out, world, "expire", Cfg { max_anc: *rng.pick(&[4u64, 25]), max_size: 1_000_000, min_fee_rate: 1000, min_rbf_rate: 1500 }, fixed);
+    let mut b = B::new();
+    let mut outs: Vec<(u64, u64)> = vec![];
+    for r in 0..N_ROOTS {
+        for i in 0..ROOT_OUTS {
+            outs.push((r, i));
+        }
+    }
+    let mut stamps: Vec<u64> = vec![];
+    let rounds = 1 + rng.below(3);
+    for _ in 0..rounds {
+        let n = 3 + rng.below(9);
+        for _ in 0..n {
+            let v = sim.view();
+            let free: Vec<(u64, u64)> = outs.iter().filter(|o| !v.inputs.contains_key(o) && (o.0 < N_ROOTS || v.entries.contains_key(&o.0))).copied().collect();
+            if free.is_empty() {
+                break;
+            }
+            let pooled_first: Vec<(u64, u64)> = free.iter().filter(|o| o.0 >= N_ROOTS).copied().collect();
+            let mut inputs = vec![if !pooled_first.is_empty() && rng.chance(3, 4) { *rng.pick(&pooled_first) } else { *rng.pick(&free) }];
+            if rng.chance(1, 3) && !pooled_first.is_empty() {
+                let o = *rng.pick(&pooled_first);
+                if !inputs.contains(&o) {
+                    inputs.push(o);
+                }
+            }
+            let mut deps = vec![];
+            if rng.chance(1, 5) && !pooled_first.is_empty() {
+                let o = *rng.pick(&pooled_first);
+                if !inputs.iter().any(|i| i.0 == o.0) {
+                    deps.push(o);
+                }
+            }
+            let size = rng.range(100, 300);
+            let nout = 1 + rng.below(3);
+            let id = b.tx(&mut sim, out, &inputs, &deps, nout, size, rng.range(0, 300_000), size * 2);
+            if sim.unreachable_add(&v, id) {
+                continue;
+            }
+            // timestamps: small steps, so that several entries sit within a few ms of the boundary
+            b.ts += *rng.pick(&[1u64, 1, 2, 1000, 700_000]);
+            let ts = b.ts;
+            let st = *rng.pick(&["p", "g", "r"]);
+            sim.exec(out, &format!("add {id} {st} {ts}"));
+            if sim.view().entries.contains_key(&id) {
+                stamps.push(ts);
+                for i in 0..nout {
+                    outs.push((id, i));
+                }
+            }
+        }
+        if !stamps.is_empty() {
+            // expiry + ts < now: ts == now - expiry stays, ts == now - expiry - 1 leaves
+            let pivot = *rng.pick(&stamps);
+            let now = pivot + HOUR_MS + *rng.pick(&[0u64, 1, 1, 2]);
+            sim.exec(out, &format!("expire {now} -"));
+        }
+    }
+    end_case(out, &sim, "expire");
+    sim.max_pool
+}
+
+/// the eviction path inside add_entry (check_and_record_ancestors): several pooled transactions reference a
+/// confirmed cell as cell dep, some with pooled parents / children of their own; a new transaction consumes
+/// that cell and has more ancestors than max_ancestors_count: cell-ref parents are evicted in evict-key
+/// order until the count fits — or the submission is rejected (before or after the evictions)
+fn run_celldep_case(out: &mut Out, rng: &mut Rng, world: &World, fixed: (bool, bool, bool)) -> usize {
+    let max_anc = *rng.pick(&[2u64, 3, 3, 4, 5]);
+    let mut sim = start_case(out, world, "celldep", Cfg { max_anc, max_size: *rng.pick(&[1_000_000u64, 1_000_000, 2000]), min_fee_rate: 1000, min_rbf_rate: *rng.pick(&[1500u64, 1000]) }, fixed);
+    let mut b = B::new();
+    let cell = (1u64, 7u64);
+    let n_ref = 1 + rng.below(5);
+    let mut refs: Vec<u64> = vec![];
+    let mut spare: Vec<(u64, u64)> = vec![]; // unspent outputs of pooled transactions
+    let mut root_i = 0u64;
+    for _ in 0..n_ref {
+        // a cell-ref parent, sometimes below a pooled parent of its own
+        let mut inputs = vec![(0u64, root_i)];
+        root_i += 1;
+        if rng.chance(1, 3) && !spare.is_empty() {
+            let i = rng.below(spare.len() as u64) as usize;
+            inputs = vec![spare.remove(i)];
+        }
+        let size = *rng.pick(&[100u64, 200, 200, 300]);
+        let fee = size * *rng.pick(&[1000u64, 1000, 2000, 3000]) / 1000;
+        let id = b.tx(&mut sim, out, &inputs, &[cell], 2, size, rng.range(0, 200_000), fee);
+        let st = *rng.pick(&["p", "g", "r"]);
+        b.add(&mut sim, out, rng, id, st);
+        if sim.view().entries.contains_key(&id) {
+            refs.push(id);
+            spare.push((id, 0));
+            spare.push((id, 1));
+        }
+        // a child of a cell-ref parent (leaves with it when it is evicted)
+        if rng.chance(1, 3) && !spare.is_empty() {
+            let i = rng.below(spare.len() as u64) as usize;
+            let o = spare.remove(i);
+            let id = b.tx(&mut sim, out, &[o], &[], 1, 150, 0, 300);
+            b.add(&mut sim, out, rng, id, "p");
+            if sim.view().entries.contains_key(&id) {
+                spare.push((id, 0));
+            }
+        }
+    }
+    // other pooled parents of the new transaction (plain ancestors that cannot be evicted)
+    let mut inputs = vec![cell];
+    let n_par = rng.below(3);
+    for _ in 0..n_par {
+        let v = sim.view();
+        let free: Vec<(u64, u64)> = spare.iter().filter(|o| !v.inputs.contains_key(o) && v.entries.contains_key(&o.0)).copied().collect();
+        if !free.is_empty() && rng.chance(1, 2) {
+            let o = *rng.pick(&free);
+            if !inputs.contains(&o) {
+                inputs.push(o);
+            }
+        } else {
+            let p = b.tx(&mut sim, out, &[(2, root_i % ROOT_OUTS)], &[], 1, 120, 0, 500);
+            root_i += 1;
+            b.add(&mut sim, out, rng, p, "p");
+            inputs.push((p, 0));
+        }
+    }
+    let t = b.tx(&mut sim, out, &inputs, &[], 1, 250, rng.range(0, 100_000), 1000);
+    let v = sim.view();
+    if !sim.unreachable_add(&v, t) {
+        if rng.chance(1, 2) {
+            b.add(&mut sim, out, rng, t, "p");
+        } else {
+            b.submit(&mut sim, out, rng, t, "p");
+        }
+    }
+    if rng.chance(1, 2) {
+        sim.exec(out, "limit");
+    }
+    end_case(out, &sim, "celldep");
+    sim.max_pool
+}
+
+/// reorg-style re-add (the known finding F3 and what must still hold around it): a DAG two to four levels
+/// deep hangs below a root P (spenders, dep users, diamonds); P leaves alone (committed in the detached
+/// block: remove_entry of a root), the rest stays pooled; then P is inserted again. Known: P's own
+/// descendants_* stay at P. Required all the same: every descendant, at every depth, gains P's weight in
+/// ancestors_*, nothing else changes, and later removals / insertions keep the untouched entries exact.
+fn run_readd_case(out: &mut Out, rng: &mut Rng, world: &World, fixed: (bool, bool, bool)) -> usize {
+    let mut sim = start_case(out, world, "readd", Cfg { max_anc: *rng.pick(&[25u64, 25, 6]), max_size: 1_000_000, min_fee_rate: 1000, min_rbf_rate: *rng.pick(&[1500u64, 1000]) }, fixed);
+    let mut b = B::new();
+    let pn = 2 + rng.below(2);
+    let p = b.tx(&mut sim, out, &[(0, 0)], &[], pn, *rng.pick(&[100u64, 231]), rng.range(0, 500_000), 400);
+    b.add(&mut sim, out, rng, p, "p");
+    let mut outs: Vec<(u64, u64)> = (0..pn).map(|i| (p, i)).collect();
+    let n = 2 + rng.below(7);
+    for _ in 0..n {
+        let v = sim.view();
+        let free: Vec<(u64, u64)> = outs.iter().filter(|o| !v.inputs.contains_key(o) && v.entries.contains_key(&o.0)).copied().collect();
+        if free.is_empty() {
+            break;
+        }
+        let mut inputs = vec![*rng.pick(&free)];
+        let mut deps = vec![];
+        if rng.chance(1, 3) {
+            let o = *rng.pick(&free);
+            if !inputs.contains(&o) {
+                inputs.push(o);
+            }
+        }
+        if rng.chance(1, 4) {
+            // a dep user: spends a confirmed cell, references a family output
+            let o = *rng.pick(&free);
+            if !inputs.iter().any(|i| i.0 == o.0) {
+                deps.push(o);
+                if rng.chance(1, 2) {
+                    inputs = vec![(1, rng.below(ROOT_OUTS))];
+                    if v.inputs.contains_key(&inputs[0]) {
+                        continue;
+                    }
+                }
+            }
+        }
+        let size = rng.range(100, 300);
+        let nout = 1 + rng.below(2);
+        let id = b.tx(&mut sim, out, &inputs, &deps, nout, size, rng.range(0, 900_000), size + rng.below(500));
+        if sim.unreachable_add(&v, id) {
+            continue;
+        }
+        let st = *rng.pick(&["p", "g", "r"]);
+        b.add(&mut sim, out, rng, id, st);
+        if sim.view().entries.contains_key(&id) {
+            for i in 0..nout {
+                outs.push((id, i));
+            }
+        }
+    }
+    // P leaves alone
+    if rng.chance(1, 2) {
+        sim.exec(out, &format!("rm {p}"));
+    } else {
+        sim.exec(out, &format!("commit {p}"));
+    }
+    if rng.chance(1, 3) {
+        let v = sim.view();
+        let ids: Vec<u64> = v.entries.keys().copied().collect();
+        if !ids.is_empty() {
+            let id = *rng.pick(&ids);
+            sim.exec(out, &format!("set {id} {}", *rng.pick(&["p", "g", "r"])));
+        }
+    }
+    // and comes back
+    let v = sim.view();
+    if !sim.unreachable_add(&v, p) {
+        if rng.chance(1, 2) {
+            b.add(&mut sim, out, rng, p, "p");
+        } else {
+            b.submit(&mut sim, out, rng, p, "p");
+        }
+        out.count("readd-parent-above-pooled-descendants");
+    }
+    // life goes on around the stale entry
+    for _ in 0..rng.below(4) {
+        let v = sim.view();
+        let ids: Vec<u64> = v.entries.keys().copied().filter(|i| *i != p).collect();
+        if ids.is_empty() {
+            break;
+        }
+        match rng.below(4) {
+            0 => {
+                let id = *rng.pick(&ids);
+                let (ps, cs) = v.links.get(&id).cloned().unwrap_or_default();
+                if ps.is_empty() || cs.is_empty() {
+                    sim.exec(out, &format!("rm {id}"));
+                }
+            }
+            1 => {
+                let id = *rng.pick(&ids);
+                sim.exec(out, &format!("rmd {id}"));
+            }
+            2 => {
+                let free: Vec<(u64, u64)> = outs.iter().filter(|o| !v.inputs.contains_key(o) && v.entries.contains_key(&o.0)).copied().collect();
+                if !free.is_empty() {
+                    let o = *rng.pick(&free);
+                    let id = b.tx(&mut sim, out, &[o], &[], 1, 150, 0, 300);
+                    b.add(&mut sim, out, rng, id, "p");
+                    outs.push((id, 0));
+                }
+            }
+            _ => sim.exec(out, "limit"),
+        }
+    }
+    end_case(out, &sim, "readd");
     sim.max_pool
 }
 
@@ -1250,8 +2065,25 @@ pub fn run(opts: &Opts) {
         replay_case(&mut out, &world, &ops, f2_fixed);
     } else {
         let mut rng = Rng::new(opts.seed);
-        let cases = (if opts.thorough() { 6000 } else { 500 }) * opts.scale;
+        let cases = (if opts.thorough() { 60000 } else { 12000 }) * opts.scale;
         let mut max_pool_seen = 0usize;
+        // directed families first (they are short): RBF accounting, the 100-candidate edge, limit_size,
+        // remove_expired with descendants, the eviction path inside add_entry
+        let k = (if opts.thorough() { 12 } else { 2 }) * opts.scale;
+        for _ in 0..2000 * k {
+            let m = run_rbf_case(&mut out, &mut rng, &world, f2_fixed);
+            max_pool_seen = max_pool_seen.max(m);
+        }
+        for c in 0..(if opts.thorough() { 16 } else { 8 }) * opts.scale {
+            let m = run_rbf_limit_case(&mut out, &mut rng, &world, f2_fixed, c);
+            max_pool_seen = max_pool_seen.max(m);
+        }
+        for _ in 0..1000 * k {
+            run_evict_case(&mut out, &mut rng, &world, f2_fixed);
+            run_expire_case(&mut out, &mut rng, &world, f2_fixed);
+            run_celldep_case(&mut out, &mut rng, &world, f2_fixed);
+            run_readd_case(&mut out, &mut rng, &world, f2_fixed);
+        }
         for c in 0..cases {
             let n_ops = 8 + rng.below(30) as usize;
             // 60% of the cases avoid the three patterns under which the code is known not to maintain the aggregates
@@ -1260,14 +2092,14 @@ pub fn run(opts: &Opts) {
             max_pool_seen = max_pool_seen.max(m);
         }
         // a few long cases with large pools (ancestor-limit boundaries on long chains, RBF on)
-        let big_cases = (if opts.thorough() { 24 } else { 2 }) * opts.scale;
+        let big_cases = (if opts.thorough() { 48 } else { 6 }) * opts.scale;
         for c in 0..big_cases {
             let m = run_case(&mut out, &mut rng, &world, 140, c % 2 == 0, f2_fixed, true);
             max_pool_seen = max_pool_seen.max(m);
         }
         out.extra.insert("max_pool_seen".into(), (max_pool_seen as u64).into());
     }
-    out.finish("pool held >= 4 transactions at some point and >= 2 distinct removal/eviction/replacement paths ran (evict-in-add, rej-anc, commit-conflict, hdr, limit, expire, detach, rbf-replace, rbf-reject)");
+    out.finish("pool held >= 4 transactions at some point and >= 2 (random histories) or >= 1 (directed families: rbf, rbf-limit, evict, expire, celldep, readd) distinct removal/eviction/replacement paths ran (evict-in-add, rej-anc, commit-conflict, hdr, limit, expire, detach, rbf-replace, rbf-reject, parent-after-children)");
     drop(world.snapshot);
     let _ = std::fs::remove_dir_all(&world.base);
 }
